@@ -22,7 +22,9 @@ branch, in which the LOOP calls env.reset() inside the rollout when all agents a
 One trace per training run:
   reset  ep[e][a]                                   episode number of the observations returned by env.reset()
   step   term[e][a], trunc[e][a], ep[e][a], k[e][a] what the vector env returned: flags, identity of the next observation
-  learn  dones[t][e][a], nd[e][a], sid[t][e][a] = [ep, k] of states[t], nid[e][a] = [ep, k] of next_state, exc
+  learn  dones[t][e][a], nd[e][a], sid[t][e][a] = [ep, k] of states[t], nid[e][a] = [ep, k] of next_state, exc;
+         PPO only: lp_ok[t][e][a], val_ok[t][e][a] (1 = re-evaluating the stored observation/action row with the agent's own
+         evaluate_actions BEFORE learn() reproduces the stored log-probability / value within 1e-5), reeval_exc
   crash  exception escaping the training function
 """
 from __future__ import annotations
@@ -83,9 +85,11 @@ def _single_env_cls():
     class ScriptEnv(gym.Env):
         metadata = {"render_modes": []}
 
-        def __init__(self, idx, script):
+        def __init__(self, idx, script, box=False):
             self.observation_space = spaces.Box(0.0, 1.0, (4,), dtype=np.float32)
-            self.action_space = spaces.Discrete(3)
+            # box: narrow bounds, so that most samples of the (unit-variance) Gaussian policy fall outside and the loop's clipping matters
+            self.action_space = spaces.Box(-0.25, 0.25, (2,), dtype=np.float32) if box else spaces.Discrete(3)
+            self.box = box
             self.idx, self.script = idx, list(script)
             self.ep, self.t = 0, 0
 
@@ -98,7 +102,10 @@ def _single_env_cls():
             self.t += 1
             L, kind = self.script[self.ep % len(self.script)]
             last = self.t >= L
-            r = float(int(action) == self.t % 3) - 0.25 * self.t
+            if self.box:
+                r = float(np.asarray(action, dtype=np.float64).reshape(-1)[0]) - 0.25 * self.t
+            else:
+                r = float(int(action) == self.t % 3) - 0.25 * self.t
             return _obs_vec(self.ep, self.t, self.idx, 0), r, bool(last and kind == "term"), bool(last and kind == "trunc"), {}
 
     return ScriptEnv
@@ -160,7 +167,7 @@ class Rec:
         self.in_test = 0
 
 
-def make_single_vec(rec, scripts, autoreset="same"):
+def make_single_vec(rec, scripts, autoreset="same", box=False):
     from gymnasium.vector import AutoresetMode, SyncVectorEnv
     ScriptEnv = _single_env_cls()
     mode = {"same": AutoresetMode.SAME_STEP, "next": AutoresetMode.NEXT_STEP}[autoreset]
@@ -182,7 +189,7 @@ def make_single_vec(rec, scripts, autoreset="same"):
                 rec.ev.append({"op": "reset", "ep": [[obs_ident(out[0][e])[0]] for e in range(self.num_envs)]})
             return out
 
-    return LoggedVec([(lambda i=i: ScriptEnv(i, scripts[i])) for i in range(len(scripts))], autoreset_mode=mode)
+    return LoggedVec([(lambda i=i: ScriptEnv(i, scripts[i], box)) for i in range(len(scripts))], autoreset_mode=mode)
 
 
 def make_multi_vec(rec, scripts, agent_names):
@@ -275,6 +282,34 @@ def _idents(arr, E):
     return [obs_ident(a[e]) for e in range(E)]
 
 
+def _reevaluate(agent, experiences, E):
+    """PPO, before the real learn() (weights unchanged since the rollout was collected): evaluate the stored (observation,
+    action) rows with the agent's own evaluate_actions and compare with the stored log-probabilities / values.
+    -> (lp_ok[t][e][0], val_ok[t][e][0], exception text)"""
+    from gymnasium import spaces
+    states, actions, log_probs, _, _, values, _, _ = experiences
+    lp_ok, val_ok = [], []
+    rng = torch.get_rng_state()
+    try:
+        with torch.no_grad():
+            for t in range(len(states)):
+                a = torch.as_tensor(np.asarray(actions[t]))
+                a = a.reshape(-1) if isinstance(agent.action_space, spaces.Discrete) else a.reshape(-1, *agent.action_space.shape).float()
+                lp, _, val = agent.evaluate_actions(obs=states[t], actions=a.to(agent.device))
+                lp = np.asarray(lp.detach().cpu().numpy(), dtype=np.float64).reshape(-1)
+                val = np.asarray(val.detach().cpu().numpy(), dtype=np.float64).reshape(-1)
+                slp = np.asarray(torch.as_tensor(log_probs[t]).detach().cpu().numpy(), dtype=np.float64).reshape(-1)
+                sval = np.asarray(torch.as_tensor(values[t]).detach().cpu().numpy(), dtype=np.float64).reshape(-1)
+                ok = lp.shape == slp.shape == (E,) and val.shape == sval.shape == (E,)
+                lp_ok.append([[int(ok and abs(lp[e] - slp[e]) <= 1e-5)] for e in range(E)])
+                val_ok.append([[int(ok and abs(val[e] - sval[e]) <= 1e-5)] for e in range(E)])
+        return lp_ok, val_ok, ""
+    except Exception as ex:
+        return [], [], f"{type(ex).__name__}: {ex}"[:200]
+    finally:
+        torch.set_rng_state(rng)
+
+
 @contextlib.contextmanager
 def spy(cls, rec, E, agent_names):
     o_learn, o_test = cls.learn, cls.test
@@ -288,6 +323,7 @@ def spy(cls, rec, E, agent_names):
                  "nd": [[f] for f in _flags_row(next_done, E)],
                  "sid": [[[x] for x in _idents(states[t], E)] for t in range(len(states))],
                  "nid": [[x] for x in _idents(next_state, E)]}
+            e["lp_ok"], e["val_ok"], e["reeval_exc"] = _reevaluate(self, experiences, E)
         else:
             T = len(dones[agent_names[0]])
             col = lambda per_agent: [[per_agent[a][e_] for a in range(len(agent_names))] for e_ in range(E)]
@@ -346,7 +382,7 @@ def run(cfg):
     out = {"cfg": {"loop": loop, "E": E, "A": len(names) if multi else 1, "seed": seed, "learn_steps": learn_steps,
                    "rolls": int(cfg["rolls"]), "gens": int(cfg["gens"]), "agents": names or [],
                    "scripts": [[list(x) for x in s] for s in scripts], "autoreset": cfg.get("autoreset", "same"),
-                   "vec": vec, "mode": "auto" if vec else "loop"},
+                   "vec": vec, "mode": "auto" if vec else "loop", "box": bool(cfg.get("box", False))},
            "ev": rec.ev}
     env = None
     zoo.seed_all(seed)
@@ -364,7 +400,7 @@ def run(cfg):
                    for i, ls in enumerate(learn_steps)]
             max_steps = int(cfg["gens"]) * sum(per_gen) - 1           # loop condition: sum of the members' steps < max_steps
         else:
-            env = make_single_vec(rec, scripts, cfg.get("autoreset", "same"))
+            env = make_single_vec(rec, scripts, cfg.get("autoreset", "same"), bool(cfg.get("box", False)))
             from agilerl.algorithms.ppo import PPO
             pop = [PPO(env.single_observation_space, env.single_action_space, index=i, net_config=NET, batch_size=8, lr=1e-3,
                        update_epochs=1, learn_step=ls, share_encoders=False) for i, ls in enumerate(learn_steps)]
@@ -400,7 +436,7 @@ def run(cfg):
 def stats(trace):
     """what kinds of episode ends the recorded rollouts contain (vacuity guard of the stage)"""
     s = {"learn": 0, "step": 0, "term_inner": 0, "trunc_inner": 0, "term_last": 0, "trunc_last": 0, "cont_last": 0,
-         "envs_differ": 0, "agents_differ": 0, "carry": 0, "loop_reset": 0, "loop_reset_inner": 0}
+         "envs_differ": 0, "agents_differ": 0, "carry": 0, "loop_reset": 0, "loop_reset_inner": 0, "reeval_rows": 0}
     steps = []
     prev_last_ended = False
     pending = False          # a reset by the loop inside the running rollout (non-vectorised runs) not yet followed by a step
@@ -423,6 +459,7 @@ def stats(trace):
                 s["agents_differ"] += 1
         elif e["op"] == "learn":
             s["learn"] += 1
+            s["reeval_rows"] += len(e.get("lp_ok") or [])
             pending = False
             if prev_last_ended:
                 s["carry"] += 1          # a rollout that begins right after an episode end (flag of the first row is not used)
